@@ -537,6 +537,7 @@ func init() {
 			return []drv.Part{
 				{Name: "initiator", Desc: fmt.Sprintf("peer scripts of <= %d steps", d), Body: initiatorBody(d), CutDepth: 3, Budget: b, CrashIsolate: true},
 				{Name: "receiver", Desc: fmt.Sprintf("client scripts of <= %d steps", d), Body: receiverBody(d), CutDepth: 3, Budget: b, CrashIsolate: true},
+				{Name: "receiver-scram", Desc: "the receiver offers a SCRAM mechanism; the peer is a real SCRAM client (2 users x 3 passwords, the empty one included) run to the end of the mechanism; 4 permission-callback behaviours", Body: receiverScramBody, CutDepth: 2, Workers: 4, Budget: b, CrashIsolate: true},
 			}
 		},
 	})
